@@ -10,6 +10,7 @@ import itertools
 from . import guards
 from .model import AnalysisError, is_self_attr, unparse
 from .paths import Walker
+from . import rules
 
 ATOMS = ("INF", "SLOTTED", "SCHED", "DYN", "REN", "PRE")
 ATOM_KEYS = {
@@ -66,7 +67,7 @@ class Contexts:
         nview = P.view("Node")
         icls, init = nview.method("__init__")
         w = Walker(P, nview, keep=lambda e: e.kind == "guard" or (e.kind == "assign" and e.d["target"] in ("self.slotted", "self.schedule")),
-                   track=lambda t, f: "schedule_type" in unparse(t) or "isinstance" in unparse(t), inline=lambda ev: False)
+                   track=lambda t, f: "schedule_type" in unparse(t) or "isinstance" in unparse(t), inline=rules.new_helper)
         n_ok = 0
         for st in w.paths_of(icls, init):
             if st.status == "raise":
@@ -171,7 +172,7 @@ class Contexts:
             cls, fn = view.resolve(m)
             if not any(isinstance(n, ast.Attribute) and n.attr == "possible_next_events" for n in ast.walk(fn)):
                 continue
-            w = Walker(self.program, view, track=lambda t, fr: True, inline=lambda ev: False,
+            w = Walker(self.program, view, track=lambda t, fr: True, inline=rules.new_helper,
                        keep=lambda e: e.kind == "guard" or (e.kind == "assign" and e.d["target"].startswith("self.possible_next_events[")))
             for st in w.paths_of(cls, fn):
                 for i, e in enumerate(st.events):
@@ -206,7 +207,7 @@ class Contexts:
             cls, fn = view.resolve(m)
             if m == "__init__":
                 continue
-            w = Walker(self.program, view, track=lambda t, fr: True, inline=lambda ev: False,
+            w = Walker(self.program, view, track=lambda t, fr: True, inline=rules.new_helper,
                        keep=lambda e: e.kind == "guard" or (e.kind == "call" and e.d.get("selfcall")))
             lst = []
             for st in w.paths_of(cls, fn):
